@@ -426,7 +426,16 @@ func DownloadFolderHandler(rwc io.ReadWriter, fullPath string, fileTransfer *Fil
 			return nil
 		}
 
-		fileHeader := NewFileHeader(subPath, info.IsDir())
+		// An alias of a folder is announced as a folder (filepath.Walk does not descend into it); sending it as a
+		// file would fail half way through the item and end the whole transfer.
+		isDir := info.IsDir()
+		if info.Mode()&os.ModeSymlink != 0 {
+			if target, err := fileStore.Stat(path); err == nil && target.IsDir() {
+				isDir = true
+			}
+		}
+
+		fileHeader := NewFileHeader(subPath, isDir)
 		if _, err := io.Copy(rwc, &fileHeader); err != nil {
 			return fmt.Errorf("error sending file header: %w", err)
 		}
@@ -462,7 +471,7 @@ func DownloadFolderHandler(rwc io.ReadWriter, fullPath string, fileTransfer *Fil
 			return nil
 		}
 
-		if info.IsDir() {
+		if isDir {
 			return nil
 		}
 
